@@ -144,6 +144,7 @@ class ClassTx:
         self.sort_issues = []
         self.preconditions = []
         self.nentries = 0
+        self.updates = []           # (class, line, block, operator, index sorts, node indices used, node indices guarded)
         self.mna = fdef.args.args[1].arg if len(fdef.args.args) > 1 else 'mna'
 
     # ------------------------------------------------------------------ values
@@ -248,9 +249,10 @@ class ClassTx:
         idx = list(sl.elts) if isinstance(sl, ast.Tuple) else [sl]
         if len(idx) != len(sorts):
             raise Unparsed('index count in %s' % ast.unparse(target))
-        used, texts = [], []
+        used, texts, idxvals = [], [], []
         for n, want in zip(idx, sorts):
             v, t = self.index(n, env, want)
+            idxvals.append(v)
             texts.append(t)
             if v[0] in ('node', 'cnode') and v not in used:
                 used.append(v)
@@ -268,6 +270,10 @@ class ClassTx:
                                      % (self.cname, lineno, ast.unparse(target),
                                         ', '.join(str(u[1]) for u in used), ', '.join(str(u[1]) for u in g)))
         self.nentries += 1
+        code = {'p0': 0, 'p1': 1, 'p2': 2, 'p3': 3, 'c0': 10, 'c1': 11}
+        self.updates.append((self.cname, lineno, mat, {'+=': 'add', '-=': 'sub', '=': 'assign'}[op],
+                             [('node' if v_[0] in ('node', 'cnode') else 'br') for v_ in idxvals],
+                             sorted(code.get(u[1], 99) for u in used), sorted(code.get(u[1], 99) for u in g)))
         lhs, rhs = acc
         if len(texts) == 2:
             return (lhs + ['(%s, %s, %s)' % (texts[0], texts[1], val)], rhs)
@@ -409,6 +415,30 @@ inductive SrcKind where
   | dc | s | ivp | ac | time
 deriving DecidableEq, Repr
 
+/-- one matrix update `mna._<blk>[i(, j)] <op> v` of a `_stamp` method, as read from the source -/
+inductive Op where
+  | add | sub | assign      -- `+=`, `-=`, `=`
+deriving DecidableEq, Repr
+inductive Blk where
+  | G | B | C | D | Is | Es
+deriving DecidableEq, Repr
+inductive Srt where
+  | node | br
+deriving DecidableEq, Repr
+structure Update where
+  cls : String
+  line : Nat
+  blk : Blk
+  op : Op
+  idx : List Srt          -- sort of each index expression (node index / branch index)
+  used : List Nat         -- node-index variables used (0-3: the component's nodes, 10-11: nodes of the controlling component), sorted
+  guards : List Nat       -- node-index variables tested `>= 0` by the enclosing `if`s, sorted
+deriving Repr
+
+/-- the sorts with which each block must be indexed: G[node,node] B[node,br] C[br,node] D[br,br] Is[node] Es[br] -/
+def Blk.sorts : Blk → List Srt
+  | .G => [.node, .node] | .B => [.node, .br] | .C => [.br, .node] | .D => [.br, .br] | .Is => [.node] | .Es => [.br]
+
 variable {α : Type} [Add α] [Mul α] [Neg α] [Sub α] [Div α] [OfNat α 0] [OfNat α 1] [OfNat α 2]
 
 '''
@@ -453,6 +483,7 @@ def generate(repo='/repo'):
     info = {'source': path, 'classes': {}, 'unparsed': [], 'assignments': [], 'guard_issues': [], 'sort_issues': [],
             'preconditions': [], 'entries': 0}
     parsed = []
+    all_updates = []
     for cname in ORDER:
         f = classes.get(cname, {}).get('_stamp')
         body = None
@@ -478,6 +509,9 @@ def generate(repo='/repo'):
         parsed.append(cname)
         info['classes'][cname] = {'parsed': True, 'line': f.lineno, 'entries': tx.nentries}
         info['entries'] += tx.nentries
+        for u in tx.updates:
+            if u not in all_updates:
+                all_updates.append(u)
         info['assignments'] += tx.assignments
         info['guard_issues'] += tx.guard_issues
         info['sort_issues'] += tx.sort_issues
@@ -513,14 +547,20 @@ def generate(repo='/repo'):
         info[k] = [x for i, x in enumerate(info[k]) if x not in info[k][:i]]
     all_acc = not info['assignments']
     guards_ok = not info['guard_issues'] and not info['sort_issues']
-    parts.append('/-- plain assignments `mna._X[...] = v` found in the parsed `_stamp` methods -/\n')
+    parts.append('/-- EVERY matrix update of every parsed `_stamp` method, as data: class, source line, block, operator, sorts of the\n'
+                 '    index expressions, node-index variables used, node-index variables guarded by the enclosing `if n >= 0` tests -/\n')
+    parts.append('def updates : List Update :=\n  [' + ',\n   '.join(
+        '⟨"%s", %d, .%s, .%s, [%s], [%s], [%s]⟩' % (c, ln, blk.lstrip('_'), op, ', '.join('.' + x for x in srt),
+                                                   ', '.join(map(str, us)), ', '.join(map(str, gs)))
+        for (c, ln, blk, op, srt, us, gs) in all_updates) + ']\n\n')
+    parts.append('/-- no update is a plain assignment (COMPUTED from `updates`) -/\n')
+    parts.append('def allAccumulate : Bool := updates.all (fun u => u.op != Op.assign)\n\n')
+    parts.append('/-- every update is guarded by exactly the `>= 0` tests of the node indices it uses, and indexes its block with indices\n'
+                 '    of the right sort (COMPUTED from `updates`) -/\n')
+    parts.append('def guardsOk : Bool := updates.all (fun u => u.used == u.guards && u.idx == u.blk.sorts)\n\n')
+    parts.append('/-- the reader\'s own (Python-side) description of the offending updates, for the evidence only -/\n')
     parts.append('def assignments : List String := %s\n' % lean_strlist(info['assignments']))
-    parts.append('/-- every matrix update of every parsed `_stamp` is `+=` or `-=` -/\n')
-    parts.append('def allAccumulate : Bool := %s\n\n' % ('true' if all_acc else 'false'))
-    parts.append('/-- entries that are not guarded by exactly the `>= 0` tests of the node indices they use, or that index a\n'
-                 '    block with an index of the wrong sort -/\n')
-    parts.append('def guardIssues : List String := %s\n' % lean_strlist(info['guard_issues'] + info['sort_issues']))
-    parts.append('def guardsOk : Bool := %s\n\n' % ('true' if guards_ok else 'false'))
+    parts.append('def guardIssues : List String := %s\n\n' % lean_strlist(info['guard_issues'] + info['sort_issues']))
     parts.append('/-- `if <unsupported>: raise` preconditions met on the way (not part of a stamp) -/\n')
     parts.append('def preconditions : List String := %s\n\n' % lean_strlist(info['preconditions']))
     parts.append('/-- classes whose `_stamp` only refuses internal sources and then calls the parent\'s `_stamp` -/\n')
@@ -531,6 +571,7 @@ def generate(repo='/repo'):
     parts.append('/-- what the reader could not understand (such a class relies on the correspondence tie only) -/\n')
     parts.append('def unparsed : List String := %s\n\n' % lean_strlist(info['unparsed']))
     parts.append('end Lcapy.Gen.Stamps\n')
+    info['updates'] = len(all_updates)
     info['parsed'] = parsed
     info['all_accumulate'] = all_acc
     info['guards_ok'] = guards_ok
